@@ -241,6 +241,9 @@ func c20Run(c *ev.Ctx, sc *c20Scenario, states *sync.Map) func() (func(*vsched.S
 
 func c20Body(c *ev.Ctx) {
 	quick := c.Quick()
+	if err := schedSelfTest(); err != nil {
+		c.HarnessError("scheduler self-test: %v", err)
+	}
 	var execs, states, trans int64
 	var tallies sync.Map
 	for _, m := range []string{"deletion", "insertion"} {
